@@ -44,6 +44,7 @@ type AssertBefore struct {
 	Assume     bool // assume_after: a trusted contract for an opaque call in the anchor statement (function value, I/O): assumed, never proved, listed as an assumption
 	Anchor     string
 	Clause     *Clause
+	Havoc      bool   // havoc_after: the clause is a modifies-style target; the location becomes arbitrary after the anchor (interference by other goroutines at a lock acquisition; constrained by following assume_after clauses)
 	LetName    string // let_after: binds a specification-only local (name, type) to the clause's value after the anchor
 	LetType    string
 }
@@ -117,7 +118,7 @@ var clauseKeywords = map[string]bool{
 	"func": true, "trusted": true, "pure": true, "inline": true, "ignore": true, "spec": true, "lemma": true, "import": true,
 	"requires": true, "requires_inv": true, "ensures": true, "modifies": true, "loop": true, "arith": true, "overflow": true, "allow_panic": true,
 	"theory": true, "untrusted_input": true, "pragma": true, "assert": true, "note": true, "tparams": true, "ghost": true, "decl": true, "atcall": true, "ignorepkg": true, "trusted_ensures": true,
-	"guarded_by": true, "requires_held": true, "holds_during": true, "lock_order": true, "unshared": true, "lock_alias": true, "assert_before": true, "assert_after": true, "hint_after": true, "hint_before": true, "assume_after": true, "closure_requires": true, "let_after": true, "use_lemma": true,
+	"guarded_by": true, "requires_held": true, "holds_during": true, "lock_order": true, "unshared": true, "lock_alias": true, "assert_before": true, "assert_after": true, "hint_after": true, "hint_before": true, "assume_after": true, "closure_requires": true, "let_after": true, "use_lemma": true, "havoc_after": true,
 }
 
 type rawClause struct {
@@ -412,7 +413,7 @@ func loadContracts(dir, pkgPath string) (*PkgContracts, error) {
 				cur.TParams = strings.TrimSpace(c.text)
 			case "closure_requires":
 				cur.AssertsBefore = append(cur.AssertsBefore, &AssertBefore{ClosureReq: true, Anchor: "return func(", Clause: &Clause{Text: strings.TrimSpace(c.text), Line: c.line}})
-			case "assert_before", "assert_after", "hint_after", "hint_before", "assume_after":
+			case "assert_before", "assert_after", "hint_after", "hint_before", "assume_after", "havoc_after":
 				// assert_before "<substring of the statement's source>" <expr>
 				t := strings.TrimSpace(c.text)
 				if !strings.HasPrefix(t, "\"") {
@@ -422,7 +423,7 @@ func loadContracts(dir, pkgPath string) (*PkgContracts, error) {
 				if k < 0 {
 					return nil, fmt.Errorf("%s:%d: assert_before: unterminated anchor", path, c.line)
 				}
-				cur.AssertsBefore = append(cur.AssertsBefore, &AssertBefore{After: c.kw != "assert_before" && c.kw != "hint_before", Hint: c.kw == "hint_after" || c.kw == "hint_before", Assume: c.kw == "assume_after", Anchor: t[1 : 1+k], Clause: &Clause{Text: strings.TrimSpace(t[2+k:]), Line: c.line}})
+				cur.AssertsBefore = append(cur.AssertsBefore, &AssertBefore{After: c.kw != "assert_before" && c.kw != "hint_before", Hint: c.kw == "hint_after" || c.kw == "hint_before", Assume: c.kw == "assume_after", Havoc: c.kw == "havoc_after", Anchor: t[1 : 1+k], Clause: &Clause{Text: strings.TrimSpace(t[2+k:]), Line: c.line}})
 			case "use_lemma":
 				cur.UseLemmas = append(cur.UseLemmas, strings.Fields(c.text)...)
 			case "let_after":
@@ -733,6 +734,9 @@ func (pc *PkgContracts) genSpecFileX(imports []string, locals func(fs *FuncSpec,
 			ret := "bool"
 			if ab.LetName != "" {
 				ret = ab.LetType
+			}
+			if ab.Havoc {
+				ret = "any"
 			}
 			for _, prev := range fs.AssertsBefore[:i] {
 				if prev.LetName != "" {
